@@ -57,6 +57,7 @@ import (
 )
 
 const cellPrefix = "github.com/dfklegend/cell2/"
+const actorPkg = "github.com/asynkron/protoactor-go/actor"
 
 var analysed = []string{
 	"github.com/dfklegend/cell2/utils/runservice",
@@ -64,6 +65,7 @@ var analysed = []string{
 	"github.com/dfklegend/cell2/utils/timer",
 	"github.com/dfklegend/cell2/utils/event",
 	"github.com/dfklegend/cell2/actorex/disp",
+	"github.com/dfklegend/cell2/actorex/mailbox",
 	"github.com/dfklegend/cell2/actorex/service",
 	"github.com/dfklegend/cell2/node/client/impls/pomelo",
 }
@@ -71,7 +73,7 @@ var analysed = []string{
 // relative directories of the analysed packages below the repository root
 var analysedDirs = []string{
 	"utils/runservice", "utils/sche", "utils/timer", "utils/event",
-	"actorex/disp", "actorex/service", "node/client/impls/pomelo",
+	"actorex/disp", "actorex/mailbox", "actorex/service", "node/client/impls/pomelo",
 }
 
 // higher-order callees that run their function argument synchronously on the caller's goroutine
@@ -551,6 +553,10 @@ func (w *walker) call(c ctx, call *ast.CallExpr, how string) {
 					w.addSite(c, "iface "+shortPath(ipkg.Path()), strings.TrimPrefix(desc, "iface "))
 				}
 				w.recordIface(c, fun, f)
+			} else if ipkg != nil && ipkg.Path() == actorPkg {
+				// proto.actor's interfaces are how the mailbox reaches the actor (MessageInvoker) and the
+				// dispatcher (Dispatcher.Schedule): reported, classified in Lean
+				w.addSite(c, desc, "")
 			} else {
 				w.g.foreign++
 			}
@@ -590,7 +596,7 @@ func (w *walker) call(c ctx, call *ast.CallExpr, how string) {
 			kind, sem = "timer:"+calleeName, "timer"
 		case syncCallees[calleeName]:
 			kind, sem = "sync:"+calleeName, "sync"
-		case strings.HasPrefix(calleeName, "dyn:") || strings.HasPrefix(calleeName, "iface "):
+		case strings.HasPrefix(calleeName, "dyn:"):
 			sem = "unknown"
 		default:
 			sem = "later" // the kind string is reviewed in Lean; an unreviewed one fails there
@@ -842,6 +848,10 @@ func (w *walker) stmt(c ctx, s ast.Stmt) {
 		}
 	case *ast.ReturnStmt:
 		for _, e := range x.Results {
+			// a returned closure runs when its receiver calls it; the kind is reviewed in Lean
+			if _, isLit := unparen(e).(*ast.FuncLit); isLit && w.useFunc(c, e, "return:"+w.top, "later") {
+				continue
+			}
 			w.expr(c, e)
 		}
 	case *ast.IncDecStmt:
